@@ -38,6 +38,8 @@ def sympar_choice(draw, sp):
         cands.append(["$model", k])
     if sp["pars"].get("delta") is not None:
         cands.append(["$model", "delta"])
+    if sp["pars"].get("phi") is not None:
+        cands.append(["$model", "phi"])
     n = draw(st.integers(1, min(6, len(cands))))
     idx = draw(st.lists(st.integers(0, len(cands) - 1), min_size=n, max_size=n, unique=True))
     chosen = [cands[i] for i in idx]
